@@ -892,7 +892,11 @@ func do_WITH_CLEANUP(vm *Vm, arg int32) error {
 
 	wasErr := false
 	if exc != py.None {
-		wasErr = res == py.True
+		// any true value silences the exception, not just True
+		wasErr, err = py.ObjectIsTrue(res)
+		if err != nil {
+			return err
+		}
 	}
 	if wasErr {
 		/* There was an exception and a True return */
